@@ -13,6 +13,7 @@ PROP = {'drive': ['T2'], 'modules': ['SfntV.Props.C05'],
                        'C05_rejects_subr_run',
                        'C05_rejects_nomove',
                        'C05_rejects_missing_endchar',
+                       'C05_rejects_empty',
                        'C05_rlineto',
                        'C05_hvcurveto_trailing',
                        'C05_flex1_axis',
@@ -30,45 +31,49 @@ PROP = {'drive': ['T2'], 'modules': ['SfntV.Props.C05'],
  'areas': [('t2', 4000, 120000)],
  'rule': 'distinct case lines (charstring bytes, local/global subroutine tables, default/nominal width); '
          'non-trivial = more than 8 code bytes or a designed boundary/fault program',
- 'partial': ['PROVED, whole programs: C05_progress / C05_quirks_irrelevant (call-free programs of the static grammar WF) '
-             'and C05_progress_calls / C05_quirks_irrelevant_calls (programs with callsubr/callgsubr into stack-neutral '
-             'subroutine tables: bodies = complete grammar tokens, possibly with further calls, closed by return or '
-             'ending the glyph with endchar; every biased index valid, all three bias classes, tables <= 65536 '
-             'entries, <= 10 nested calls, every body well formed in the state of each call site; checker wfCheckP). '
-             'Grammar: literal operands in all encodings (|v| <= 32000), optional leading width on the first '
-             'stack-clearing operator, hstem/vstem/hstemhm/vstemhm, hintmask/cntrmask with implicit vstem operands '
-             'and ceil(nStems/8) mask bytes, the three movetos, ten path operators + four flex forms, abs add sub neg '
-             'mul eq and or not drop dup exch ifelse random, endchar.',
-             'NOT in the grammar / NOT proved: the value-dependent operators div, sqrt, put, get, index, roll (their '
-             'legality depends on operand values; the planned abstract interpretation with known-literal slots was '
-             'not done); subroutine bodies that are not sequences of complete tokens (e.g. a body that supplies only '
-             'operands for an operator in the caller IS covered, a body that ends in the middle of a mask is not); '
-             'return executed at top level. For these the agreement of the Go decoder with the specification rests '
-             'on the D stream t2.spec.',
-             'Agrees (decidable: agreesCheck / agreesCheckP) excludes exactly: mul (finding C05-mul); add and sub '
-             '(results not statically within +-32000, outside of which the Go decoder clamps: finding C05-clamp); '
-             'flex1 and hflex1 (they derive one delta as a sum of up to five operands: C05-clamp). Literal operands '
-             'beyond +-32000 are excluded by WF itself (C05-clamp).',
+ 'partial': ['PROVED, whole programs: C05_progress / C05_quirks_irrelevant (call-free) and C05_progress_calls / '
+             'C05_quirks_irrelevant_calls (calls into subroutine tables; bodies = sequences of complete TOKENS - a '
+             'number, an operator, a mask with its bytes - closed by return or ending the glyph with endchar; the '
+             'abstract stack/hint state flows through calls, so operands pushed by the caller with the operator in '
+             'the callee, and the converse, are inside; every biased index valid, all three bias classes, tables <= '
+             '65536 entries, <= 10 nested calls). Grammar WF: literal operands in all encodings (|v| <= 32000), '
+             'optional leading width, hstem/vstem/hstemhm/vstemhm, hintmask/cntrmask with implicit vstem and '
+             'ceil(nStems/8) mask bytes, the three movetos, ten path operators + four flex forms, abs add sub neg mul '
+             'eq and or not drop dup exch ifelse random, endchar, and the value-dependent operators with LITERAL '
+             'deciding operands written directly in front of the operator: "b div" (b != 0), "v sqrt" (v >= 0), '
+             '"i index" (i.toNat < depth; negative = top), "n j roll" (1 <= n <= depth), "i put" (0 <= i < 32), "i get".',
+             'Also in WF (progress proved): "i get" with a literal index that an earlier "i put" wrote (the simulation '
+             'invariant now carries the transient array: none, or 32 entries).',
+             'NOT in the grammar / NOT proved: div/sqrt/index/roll/put/get whose deciding operand is not a literal '
+             'directly in front of the operator (the general known/unknown abstract interpretation was not done); roll '
+             'with count 0 (TN5177 permits it, the Go decoder rejects it); a token split across two bodies cannot '
+             'execute at all (error in both decoder and specification).',
+             'Agrees (decidable) excludes exactly: mul (finding C05-mul); add, sub, flex1, hflex1 (results / derived '
+             'deltas not statically within +-32000: finding C05-clamp); "i get" (the bound on the stored value is not '
+             'tracked). INCLUDED with proof: "b div" (integer divisor, so |quotient| <= |dividend|: fxDiv_bnd), '
+             '"v sqrt" (Agrees checks, by evaluation on the literal, that the root is within +-32000 - always true '
+             'for 0 <= v <= 32000), index, roll, put. The model is a faithful model of the Go decoder for div/sqrt only '
+             'when the 16.16 result is exact, because Go keeps the float (model flag St.inexact; tie: V stream t2.dec '
+             'on exact cases, G stream otherwise).',
+             'Missing endchar: C05_rejects_missing_endchar is now general (every quirk setting, program, subroutine '
+             'tables): a glyph is returned only if an endchar operator was executed. Top-level return and running '
+             'out of code at top level: error in both Go ("incomplete") and specification. A subroutine body that '
+             'runs off its end without return/endchar: TN5177 requires return/endchar; the Go decoder silently '
+             'returns to the caller (quirk implicitReturn; finding C05-lenient below).',
+             'C05-lenient: shortMovetoIgnored and shortPathOpIgnored are REPAIRED (repository commit df570b3: moveto / '
+             'path operators with fewer than the minimum operand count give errStackUnderflow); goQuirks no longer '
+             'contains them and the old witnesses 150e / 8b16050e are corpus regression lines (corpus/C05). Still '
+             'open (known findings C05-lenient-extra, C05-lenient-return): operands beyond a legal operand count are '
+             'silently dropped ("1 2 endchar", 8c8d0e), and a subroutine body that runs off its end without '
+             'return/endchar returns to the caller (main 200a0e, subr 929415); FreeType is lenient there too.',
              'Corners of TN5177 outside the theorems, each probed on every run against the specification interpreter '
-             '(D stream, group t2.outside-theorem-probe; all agree): seac-style endchar with 4 operands (with and '
-             'without width) - both accept and ignore the operands (the accented-character composition itself is not '
-             'modelled on either side); deprecated dotsection - both clear the stack; flex depth operand (13th) - '
-             'ignored by both (rendering hint only); vstem operands directly on a hintmask without any hstem, '
-             'hstem after vstem - accepted by both (the grammar WF is stricter than TN5177 here); hintmask before '
-             'any stem and stem after a hintmask - rejected by both; random - both use the constant 40501/65536 '
-             '(TN5177 allows any value in (0,1]; a decoder using another value would still conform).',
-             'Operand-count leniency of the Go decoder (moveto/path operators/endchar with too few or stray operands '
-             'are silently ignored instead of rejected, e.g. "1 2 endchar") is modelled by three Quirks flags and '
-             'probed (V only); it is not among the fault classes C05_rejects quantifies over.',
-             'The V stream t2.wf carries the generator\'s claim in the case line (claim=wf+agrees|wf|nowf) and '
-             'compares it with the Lean checkers evaluated by the driver on the bytes (tokenizer following calls, '
-             'wfCheck/wfCheckP, agreesCheck/agreesCheckP, canonical re-encoding of program and tables); '
-             't2.theorem-domain / t2.theorem-domain-calls show how many sampled programs lie in the theorems\' '
-             'domain, with and without subroutine calls.',
-             'Fuel: C05_loop_fuel / C05_step_consumes for every quirk setting; nested bodies: runAt uses '
-             'body.length + 1 per body, justified by the same lemma (Proofs/T2Calls.lean loop_of_run).',
-             'C05_rejects_missing_endchar covers the empty program; "no endchar anywhere => error" for arbitrary '
-             'programs is checked by correspondence (fault class missing-endchar), not proved.'],
+             '(group t2.outside-theorem-probe; all agree): seac-style endchar with 4 operands, deprecated dotsection, '
+             'flex depth operand, vstem operands directly on a hintmask without hstem, hstem after vstem, hintmask '
+             'before any stem, stem after hintmask, random (constant 40501/65536 on both sides).',
+             'The V stream t2.wf carries the generator\'s claim in the case line and compares it with the Lean '
+             'checkers evaluated by the driver on the bytes; t2.theorem-domain / t2.theorem-domain-calls show how many '
+             'sampled programs lie in the theorems\' domain.',
+             'Fuel: C05_loop_fuel / C05_step_consumes for every quirk setting; nested bodies via loop_of_run.'],
  'modelled_not_verified': ['float64 evaluation in decodeCharString: the model is exact 16.16 fixed point; it equals '
                            'the float computation as long as values stay multiples of 2^-16 below 2^37. div with an '
                            'inexact quotient and sqrt of a non-square leave that domain (model flag St.inexact): '
